@@ -59,6 +59,8 @@ var Kinds = []Req{
 	// a second dynamic route in the lookup bucket of /u/{id}; a form post and a query request bound by Context.Bind
 	// (two different binders of pkg/binding)
 	{"GET", "/u/1/z"}, {"POST", "/bind"}, {"GET", "/bind?q=x&age=4"},
+	// a route with an optional part and no variables whose handler adds an entry to the parameter map it was given
+	{"GET", "/mo.html"},
 }
 
 // bindForm is what the /bind route binds (the form binder and the query binder read different tags)
@@ -144,6 +146,15 @@ func Build(s Shape) *rux.Router {
 	route("/u/{id}", "U", "GET", "DELETE")
 	route("/{x}/y", "XY", "GET", "PUT")
 	route("/u/{id}/z", "UZ", "GET")
+	r.GET("/mo[.html]", func(c *rux.Context) {
+		Yield()
+		seen := fmt.Sprintf("%d%s", len(c.Params), c.Param("ext"))
+		if c.Params != nil {
+			c.Params["ext"] = "html"
+		}
+		Yield()
+		c.WriteString("[MO " + seen + "]")
+	})
 	r.Add("/bind", func(c *rux.Context) {
 		Yield()
 		var f bindForm
